@@ -11,13 +11,14 @@ NAMES = ("p0", "p1")
 
 class DSim:
     def __init__(self, expected=(None, None), can_dilate=(("ged",), ("ged",)), half=False, app=True, max_links=4,
-                 listen_late=False, stoppable=False, ping_interval=30.0, both_write=False, sides=("aa" * 8, "bb" * 8), peer_inert=False, throttle=False, no_listen=(False, False), silent_after_connect=False):
+                 listen_late=False, stoppable=False, ping_interval=30.0, both_write=False, sides=("aa" * 8, "bb" * 8), peer_inert=False, throttle=False, no_listen=(False, False), silent_after_connect=False, lose_any=False):
         self.w = DWorld(sides=sides, expected=expected, can_dilate=can_dilate, ping_interval=ping_interval, no_listen=no_listen)
         self.w.__enter__()
         self.w.inert = peer_inert
         self.w.net.throttle = throttle
         self.throttle = throttle
         self.half, self.app, self.max_links, self.stoppable, self.both_write = half, app, max_links, stoppable, both_write
+        self.lose_any = lose_any        # any link may be lost at any time, also the only candidate of a generation (no convergence is claimed then)
         self.peer_inert = peer_inert     # an old peer without dilation support: never starts, never answers
         self.silent_after_connect = silent_after_connect   # canonical run: the link goes silent after convergence until the leader's monitor gives up
         self.listen_late = listen_late
@@ -81,7 +82,7 @@ class DSim:
             # a link in use by a side that is CONNECTED may be lost at any time (that side starts a new generation);
             # other links only while another attempt of the generation survives (the property's proviso)
             in_use_connected = any(p.link == a.link and w.sides[i].state() == "CONNECTED" for i in (0, 1) for (p, _) in w.selected(i))
-            if self.lost_count < self.max_links - 1 and (in_use_connected or (len(live_pending) + len(live_links)) >= 2):
+            if self.lost_count < self.max_links - 1 and (self.lose_any or in_use_connected or (len(live_pending) + len(live_links)) >= 2):
                 acts.append(("lose", a.link))
         for t in w.net.closing:
             if ("lose", t.link) not in acts:
@@ -419,6 +420,11 @@ class DExplore(Job):
             acts = [a for a in acts if a[0] in self.allowed]
         return acts
 
+    def final_phase(self, sim):
+        """hook: something the property demands from EVERY state the exploration ends in (run after the settled oracle passed);
+        returns True if it did anything, the run is then settled and judged again"""
+        return False
+
     def scenario(self):
         canon = canonical(self.cfg, self.configs)
         span = [p for p in range(self.plo, self.phi) if p <= len(canon)]
@@ -443,7 +449,9 @@ class DExplore(Job):
                 if not self._oracle(sim, "step"):
                     return
             sim.settle()
-            self._oracle(sim, "settled")
+            if self._oracle(sim, "settled") and self.final_phase(sim):
+                sim.settle()
+                self._oracle(sim, "settled")
             eng().note("nt:explored")
         finally:
             sim.close()
@@ -464,6 +472,9 @@ class DExplore(Job):
                 sim.do(a)
                 fails = self.violations(sim, "step")
             if not fails:
+                sim.settle()
+                fails = self.violations(sim, "settled")
+            if not fails and self.final_phase(sim):
                 sim.settle()
                 fails = self.violations(sim, "settled")
             if fails:
@@ -531,7 +542,9 @@ class DRandomPrefixMixin:
                 if not self._oracle(sim, "step"):
                     return
             sim.settle()
-            self._oracle(sim, "settled")
+            if self._oracle(sim, "settled") and self.final_phase(sim):
+                sim.settle()
+                self._oracle(sim, "settled")
             eng().note("nt:explored")
         finally:
             sim.close()
@@ -550,6 +563,9 @@ class DRandomPrefixMixin:
                 sim.do(a)
                 fails = self.violations(sim, "step")
             if not fails:
+                sim.settle()
+                fails = self.violations(sim, "settled")
+            if not fails and self.final_phase(sim):
                 sim.settle()
                 fails = self.violations(sim, "settled")
             if fails:
